@@ -214,6 +214,8 @@ impl BDF {
             guess.abs()
         };
 
+        #[cfg(ivp_verif)]
+        let h_abs_unclamped = h_abs;
         h_abs = h_abs.min(hmax.max(Float::MIN_POSITIVE));
         let mut current_h = h_abs;
 
@@ -274,7 +276,15 @@ impl BDF {
             }
         }
 
+        #[cfg(ivp_verif)]
+        crate::verif_hooks::trace("binit", &[h_abs_unclamped, current_h, hmax, hmin, newton_tol_val, direction, rtol_min, evals.ode as Float, evals.jac as Float, order as Float]);
+
         'main_loop: loop {
+            #[cfg(ivp_verif)]
+            crate::verif_hooks::trace("bpass", &[
+                x, current_h, order as Float, n_equal_steps as Float, lu_is_current as u8 as Float, current_c,
+                steps.total as Float, steps.accepted as Float, steps.rejected as Float, evals.ode as Float, evals.jac as Float, evals.lu as Float,
+            ]);
             if steps.total >= nmax {
                 status = Status::NeedLargerNMax;
                 break;
@@ -368,10 +378,14 @@ impl BDF {
                 evals.lu += 1;
                 match lu_decomp(&mut lu_matrix, &mut pivot) {
                     Ok(()) => {
+                        #[cfg(ivp_verif)]
+                        crate::verif_hooks::trace("blu", &[1.0]);
                         lu_is_current = true;
                         current_c = c;
                     }
                     Err(_) => {
+                        #[cfg(ivp_verif)]
+                        crate::verif_hooks::trace("blu", &[0.0]);
                         let factor = 0.5;
                         change_d(&mut d, order, factor, &mut scratch_change);
                         current_h *= factor;
@@ -398,6 +412,8 @@ impl BDF {
                 lin_solve(&lu_matrix, &mut rhs, &pivot);
 
                 let dy_norm = weighted_rms_scaled(&rhs, &scale);
+                #[cfg(ivp_verif)]
+                crate::verif_hooks::trace("bnewt", &[dy_norm]);
                 let mut rate_condition = false;
                 if let Some(prev) = dy_norm_prev {
                     if prev > 0.0 {
@@ -479,6 +495,8 @@ impl BDF {
                 weighted_rms_scaled(&rhs, &scale)
             };
 
+            #[cfg(ivp_verif)]
+            crate::verif_hooks::trace("berr", &[error_norm]);
             if error_norm > 1.0 {
                 let mut factor = safety * error_norm.powf(-1.0 / (order as Float + 1.0));
                 factor = factor.max(MIN_FACTOR);
@@ -566,6 +584,8 @@ impl BDF {
                     err_p = weighted_rms_scaled(&rhs, &scale);
                 }
 
+                #[cfg(ivp_verif)]
+                crate::verif_hooks::trace("bord", &[err_m, err_p]);
                 // SciPy approach: compute factors = error_norms ** (-1 / (order + k))
                 // When error_norm is 0, this gives infinity, which gets capped by MAX_FACTOR
                 let errors = [err_m, error_norm, err_p];
